@@ -27,6 +27,7 @@ package main
 
 import (
 	"fmt"
+	"go/ast"
 	"go/constant"
 	"go/token"
 	"go/types"
@@ -897,10 +898,31 @@ func (m *c18m) passModel(rule string, check *types.Func, keepTags oval) {
 		report3(c, rule, cons, pos, bad, unk, fmt.Sprintf("the least closed set in %d orders of the objects (file order, reverse, interleaved …); Check accepts it", len(orders)))
 	}
 	// ---- the extraction loop itself, under one sequential schedule
-	ext := m.findExtract()
-	if ext == nil {
+	exts := m.findExtract()
+	if len(exts) == 0 {
 		c.Unk(rule, "encoding/osm#extract", token.NoPos, "no function of the package takes a scanner factory and a keep function and returns (*Data, error)")
 		return
+	}
+	// several candidates (a function and the helper it forwards to): the one no other candidate
+	// calls is the entry point; it runs the others
+	ext := exts[0]
+	for _, cand := range exts {
+		calledBy := false
+		for _, other := range exts {
+			if other == cand {
+				continue
+			}
+			ast.Inspect(c.P.Decl(other).Body, func(n ast.Node) bool {
+				if call, ok := n.(*ast.CallExpr); ok && callee(c.P.InfoOf(other), call) == cand {
+					calledBy = true
+				}
+				return true
+			})
+		}
+		if !calledBy {
+			ext = cand
+			break
+		}
 	}
 	epos := c.P.Decl(ext).Pos()
 	for _, d := range osmDocs() {
@@ -1001,9 +1023,9 @@ func (m *c18m) passModel(rule string, check *types.Func, keepTags oval) {
 
 // findExtract: the function that drives the passes — it takes a scanner factory (a func() of an
 // interface with Scan and Object) and a keep function, and returns (*Data, error).
-func (m *c18m) findExtract() *types.Func {
+func (m *c18m) findExtract() []*types.Func {
 	pk := m.c.P.Pkg("encoding/osm")
-	var found *types.Func
+	var found []*types.Func
 	sc := pk.Types.Scope()
 	for _, n := range sc.Names() {
 		f, ok := sc.Lookup(n).(*types.Func)
@@ -1020,10 +1042,8 @@ func (m *c18m) findExtract() *types.Func {
 		}
 		for i := 0; i < sig.Params().Len(); i++ {
 			if isScannerFactory(sig.Params().At(i).Type()) {
-				if found != nil {
-					return nil // ambiguous
-				}
-				found = f
+				found = append(found, f)
+				break
 			}
 		}
 	}
